@@ -60,7 +60,8 @@ elab "inv_step" ih:(ident)? : tactic => withMainContext do
       -- an `Ext` step: the field-update lemmas, `modStream`…, or `f_ext` by name
       let candidates : List Name :=
         if n == ``Streams.mk then
-          [``setCounts_ext, ``setRefs_ext, ``setConnError_ext, ``setTask_ext, ``unlink_ext, ``remove_ext]
+          [``setCounts_ext, ``setRefs_ext, ``setConnError_ext, ``setTask_ext, ``unlink_ext, ``remove_ext,
+           ``unlinkRemove_ext, ``remove_ext']
         else if n == ``Streams.modStream then [``modStream_ext]
         else if n == ``Streams.modStreamW then [``modStreamW_ext]
         else if n == ``Streams.modRecv then [``modRecv_ext]
